@@ -13,8 +13,8 @@ NOTES = {
  "C04": ("`prefix_eq_filter` via `lcp_spec` (the subtree selected by the descent contains every key starting with p), `prefixColl_eq_filter`", "collation Prefix (as repaired) filters the whole tree", "DESIGN §5 C04"),
  "C05": ("`minimum_eq_head`, `maximum_eq_last`, `bottomK_eq_take`, `topK_eq_take_reverse` for every n; `C05Raw.minimum_is_least` / `maximum_is_greatest`: the per-class walks of minimum()/maximum() over raw nodes (children[0], children[childrenLen-1], the node48/node256 scans) reach the least / greatest stored key", "same tie as C02; the real minimum()/maximum() are also followed node by node in the bare-node correspondence", "DESIGN §5 C05, §10.2"),
  "C06": ("`size_eq_card` (conjunct of the invariant preserved by every step), `insert_size`, `delete_size`", "same tie as C01", "DESIGN §5 C06"),
- "C07": ("`encU/encI/encF*_lt_iff`, `dec*_enc*`, `*_length`, `enc*_eq_iff`, `concat_lex` for all widths; float word lemmas at 32/64 bits by bv_decide",
-         "bv_decide native axioms for six float word lemmas (disclosed in evidence); IEEE order = declared rank is cross-checked against Go's own comparison operators; 64-bit codecs tied on boundary/adjacent/random samples, 8-bit exhaustively (16-bit exhaustively in the thorough tier, also GOARCH=386)", "DESIGN §5 C07"),
+ "C07": ("`encU/encI/encF*_lt_iff`, `dec*_enc*`, `*_length`, `enc*_eq_iff`, `concat_lex` for all widths; float word lemmas at 32/64 bits by bv_decide; `C07Gen.*_ok`: the same statements (fixed length, round trip, order isomorphism, injectivity, NaN collapse) for the fourteen clauses of keys.go's Transform/Restore type switches as *regenerated on every run* into `Gen/Keys.lean` by the translator (so an edit of a constant, operator or branch of keys.go breaks a proof obligation whether or not a sample hits it)",
+         "bv_decide native axioms for six float word lemmas (disclosed in evidence); trusted reading of package math on bit patterns (Model/Ieee.lean: which patterns IsInf/IsNaN/Inf/NaN denote) and of encoding/binary (big-endian), both cross-checked by the codec correspondence; IEEE order = declared rank is cross-checked against Go's own comparison operators; 64-bit codecs additionally tied on boundary/adjacent/random samples, 8-bit exhaustively (16-bit exhaustively in the thorough tier, also GOARCH=386)", "DESIGN §5 C07, §10.7"),
  "C08": ("`terminated_sortkeys_prefix_free`, `collation_refines_map`, `lexLt_terminated2`: for every sort-key function whose keys are distinct, never continue one another with 00 00 and never differ by one trailing 00, C01–C06 hold on original strings and the terminator keeps the order",
          "x/text collate.Key is a parameter: `KeysOK` is assumed of it and measured on every generated pair; collator order = byte order of keys is x/text's contract", "DESIGN §5 C08"),
  "C09": ("`compound_refines_map` for every injective prefix-free codec; `fixed_then_tail_prefixFree`, `tuple_order`, schema instances from C07", "codecs generated from random field schemas; user codecs outside the contract are not claimed", "DESIGN §5 C09"),
